@@ -525,10 +525,16 @@ def serveStep (j : Json) : Json :=
     let history := (arrOf j "history").map sframeOfJson
     let live := (arrOf j "live").map sframeOfJson
     let invalid := (arrOf j "invalid").filterMap (fun x => match x with | .str s => some (hexToNat s) | _ => none)
-    let ann := announcements (fun r => !invalid.contains r.id) history live
-    Json.mkObj [("announce", .arr (ann.map (fun a => match a with
-      | .registered h => Json.arr #[.str "registered", .str (idToHex h)]
-      | .unregistered h => Json.arr #[.str "unregistered", .str (idToHex h)])).toArray)]
+    let tails := (arrOf j "tail").filterMap (fun x => match x with | .str s => some (hexToNat s) | _ => none)
+    let infos : List StartInfo := (startOrder history live).map (fun r =>
+      let valid := !invalid.contains r.id
+      let name := match classify r.topic with | some (n, _) => n | none => ""
+      let cfg : HCfg := { id := r.id, ctx := r.ctx, name := name }
+      { hid := r.id, valid := valid,
+        supersededBy := if valid && tails.contains r.id then (laterTraffic cfg (history ++ live)).map (·.id) else none })
+    Json.mkObj [("starts", .arr (infos.map (fun i => Json.mkObj [("hid", .str (idToHex i.hid)), ("valid", .bool i.valid),
+      ("superseded_by", match i.supersededBy with | some f => .str (idToHex f) | none => .null)])).toArray),
+      ("n_history", .num (compact history).length)]
   | _ => Json.mkObj [("err", .str "bad-q")]
 
 partial def serveLoop (h : IO.FS.Stream) : IO Unit := do
